@@ -108,6 +108,7 @@ const STAGES: &[(&str, StageFn)] = &[
     ("c16.lib", c16::lib),
     ("c17.lib", c17::lib),
     ("c17.cli", c17::cli),
+    ("c17.killed", c17::killed),
     ("selfcheck", selfcheck::run),
     ("core-eval", coreeval::core_eval),
     ("ref-eval", coreeval::ref_eval),
